@@ -123,6 +123,23 @@ impl Encoder {
             process_encoding_step(&mut self.steps, step, packet, dest)?;
         }
 
+        // steps that emit no bytes (an empty string, an empty payload) need no buffer space: a packet whose last byte has
+        // been written must not be reported as still in progress just because the buffer is (nearly) full
+        while let Some(step) = self.steps.front() {
+            let remaining = match step {
+                EncodingStep::StringSlice(getter, offset) => getter(packet).len() - offset,
+                EncodingStep::BytesSlice(getter, offset) => getter(packet).len() - offset,
+                EncodingStep::IndexedString(getter, index, offset) => getter(packet, *index).len() - offset,
+                EncodingStep::UserPropertyName(getter, index, offset) => getter(packet, *index).name.len() - offset,
+                EncodingStep::UserPropertyValue(getter, index, offset) => getter(packet, *index).value.len() - offset,
+                _ => 1,
+            };
+            if remaining > 0 {
+                break;
+            }
+            self.steps.pop_front();
+        }
+
         if capacity != dest.capacity() {
             panic!("Encoder::encode: encoding logic resized dest buffer");
         }
